@@ -34,6 +34,15 @@ Visible(env) ==
    IF env.level = 2 THEN LocDecl \cup CDecl \cup (IF env.self THEN SelfC ELSE {})
    ELSE (LocDecl \cup (IF env.level = 1 THEN BDecl ELSE {})) \cup (IF env.level = 1 /\ env.self THEN SelfDecl ELSE {})) \ env.edited
 
+\* The expression form the cursor is inside, and the type expected at the cursor there (the constraint the decoder hands
+\* down: the operand type of the operator, the parameter type of the function, string inside a template, the type of the
+\* whole expression inside parentheses and in the branches of a conditional (since the repair of the conditional branches,
+\* DESIGN 8); as far as this module assumes, any type in the parts of a `for` expression).
+Forms == {"plain", "tmpl", "binr", "condt", "condf", "arg", "paren", "forcoll", "forbody"}
+ExpType(c, form) == CASE form = "tmpl" -> "string" [] form = "binr" -> "number" [] form = "arg" -> "string"
+                      [] form \in {"forcoll", "forbody"} -> "dynamic" [] OTHER -> c.t
+ConsAt(c, form) == IF form = "plain" THEN c ELSE [k |-> "any", t |-> ExpType(c, form)]
+
 \* conv : address text -> BOOLEAN (does the declared type convert to the expected one) - from cty, via the harness
 Fits(d, env, conv) == d \in DOMAIN conv /\ (conv[d] \/ \E x \in Visible(env) \cap DOMAIN conv : Descends(x, d) /\ conv[x])
 
